@@ -1,6 +1,5 @@
 import I2P.Tables
 import I2P.Gen.Observed
-import I2P.Gen.Tables
 import I2P.Proofs.KacLemmas
 /-! # C10 — key/signature size tables agree everywhere and fix the 384-byte key block
 
@@ -64,24 +63,6 @@ theorem crypto_lookups_agree :
 /-- the sweep saw no internal inconsistency (a lookup knowing an out-of-range code, two getters of one
     table disagreeing on whether a code is known, a "known" answer that is not a usable size) -/
 theorem sweep_consistent : Gen.Observed.markers = [] := by decide
-
-/-- the source-level copies of the tables (map literals and `switch` statements, re-translated from the
-    Go AST on every run) carry the same rows — pinpoints which copy was edited when an agreement breaks -/
-theorem source_tables_agree :
-    Gen.Tables.key_certificate_SigningKeySizes.map (fun r => ((r.1, r.2.getD 1 0, r.2.getD 0 0) : Int × Int × Int))
-      = specSigRows.map (fun r => ((r.1 : Int), r.2.1, r.2.2)) ∧
-    Gen.Tables.key_certificate_SignaturePublicKeySizes.map (fun r => ((r.1, r.2.getD 0 0) : Int × Int))
-      = specSigRows.map (fun r => ((r.1 : Int), r.2.1)) ∧
-    Gen.Tables.key_certificate_CryptoKeySizes.map (fun r => ((r.1, r.2.getD 0 0) : Int × Int))
-      = specCryptoRows.map (fun r => ((r.1 : Int), r.2)) ∧
-    Gen.Tables.key_certificate_CryptoPublicKeySizes.map (fun r => ((r.1, r.2.getD 0 0) : Int × Int))
-      = specCryptoRows.map (fun r => ((r.1 : Int), r.2)) ∧
-    (Gen.Tables.signature_switch_getSignatureLength.filter (fun r => r.2.getD 1 0 == 1)).map (fun r => ((r.1, r.2.getD 2 0) : Int × Int))
-      = specSigRows.map (fun r => ((r.1 : Int), r.2.2)) ∧
-    (Gen.Tables.offline_signature_switch_SigningPublicKeySize.filter (fun r => r.2.getD 1 0 == 1)).map (fun r => ((r.1, r.2.getD 2 0) : Int × Int))
-      = specSigRows.map (fun r => ((r.1 : Int), r.2.1)) ∧
-    (Gen.Tables.offline_signature_switch_SignatureSize.filter (fun r => r.2.getD 1 0 == 1)).map (fun r => ((r.1, r.2.getD 2 0) : Int × Int))
-      = specSigRows.map (fun r => ((r.1 : Int), r.2.2)) := by decide
 
 /-- Layout of the 384-byte block for every accepted identity: the encryption key occupies the start, the
     signing key the end, the padding exactly the bytes between, and the declared sizes equal the
